@@ -7,6 +7,7 @@
 -/
 import Vita.C04.Gen
 import Vita.C04.Lemmas
+import Vita.C04.IOLemmas
 namespace Vita.C04
 open Lang
 
@@ -35,6 +36,10 @@ def ginsert (st : CState) (k : Key) (v : Fit) : Option CState := runInsert gcs G
 def gclear (st : CState) : Option CState := runVoid gcs Gen.clear st
 def gclearKey (st : CState) (k : Key) : Option CState := runKeyVoid gcs Gen.clearKey st k
 def greload (st : CState) : CState := ofCache st.mask (toCache st).reload
+/-- cache::save as generated: (result, state afterwards, tokens written) -/
+def gsave (st : CState) : Option (Bool × CState × List IO.Tok) := IO.runSave gcs (gdom st.mask) Gen.save st
+/-- cache::load as generated: (result, state afterwards) -/
+def gload (st : CState) (inp : List IO.Tok) : Option (Bool × CState) := IO.runLoad gcs (gdom st.mask) Gen.load st inp
 
 def gstep (st : CState) : Op → Option CState
   | .insert k v => ginsert st k v
